@@ -301,4 +301,9 @@ theorem source_calculateAssignmentOffsets : GeneratedSrc.calculateAssignmentOffs
 theorem source_offsetForPartition : GeneratedSrc.offsetForPartition = ExpectedSrc.offsetForPartition := by rfl
 theorem source_requestRecovery : GeneratedSrc.requestRecovery = ExpectedSrc.requestRecovery := by rfl
 
+
+/-! ### functions the model's assumptions rest on (construction, wiring, surrounding calls) are unchanged -/
+theorem source_kcSetup : GeneratedSrc.kcSetup = ExpectedSrc.kcSetup := by rfl
+theorem source_kcStart : GeneratedSrc.kcStart = ExpectedSrc.kcStart := by rfl
+
 end Firebolt.C06
